@@ -32,11 +32,12 @@ theorem c10_header_line (be : Backend) (hbe : be.Exact) (hc : HCfg) (k off : Nat
     (headerLine be hc k).run ⟨off, [], input⟩ = .err e ↔ LineErr hc k input e :=
   headerLine_err_iff be hbe hc k off input e
 
+/-- `hk`: the headers already stored fit the array (the loop's invariant; it starts with none) -/
 theorem c10_block (be : Backend) (hbe : be.Exact) (hc : HCfg) (cap off : Nat) (input : List Byte)
-    (hs₀ hs' : List Hdr) (fuel : Nat) (hf : input.length < fuel) (e : Error) :
+    (hs₀ hs' : List Hdr) (hk : hs₀.length ≤ cap) (fuel : Nat) (hf : input.length < fuel) (e : Error) :
     headersLoop be hc cap fuel ⟨off, [], input⟩ hs₀ = (.err e, hs') ↔
       ∃ hs, BlockErr hc cap off hs₀.length input e hs ∧ hs' = hs₀ ++ hs :=
-  headersLoop_err_iff be hbe hc cap off input hs₀ hs' fuel hf e
+  headersLoop_err_iff be hbe hc cap off input hs₀ hs' hk fuel hf e
 
 theorem c10_request (be : Backend) (hbe : be.Exact) (cfg : Config) (cap : Nat) (buf : List Byte) (v₀ : ReqVal) (e : Error) :
     (reqCore be cfg cap buf v₀).status = .err e ↔
@@ -65,6 +66,10 @@ theorem c10_kinds_response_line (multi : Bool) (s : List Byte) (e : Error) (h : 
 
 theorem c10_kinds_header_line (hc : HCfg) (k : Nat) (s : List Byte) (e : Error) (h : LineErr hc k s e) :
     e = .newLine ∨ e = .headerName ∨ e = .headerValue := by
-  cases h <;> simp [failKind] <;> split <;> simp
+  cases h
+  case crNotLf => simp
+  case valueCr => simp
+  case valueCr' => simp
+  all_goals (unfold failKind; split <;> simp)
 
 end Hx
